@@ -143,5 +143,7 @@ func symxC04A() {
 		}
 	}
 	tie := rt.And(ref[0].live && ref[1].live, rt.And(ref[0].sec == ref[1].sec, ref[0].nsec == ref[1].nsec))
-	rt.Cover(tie, "C04.two_live_entries_with_equal_deadlines")
+	if rt.Param("k1", -1) < 0 {
+		rt.Cover(tie, "C04.two_live_entries_with_equal_deadlines")
+	}
 }
